@@ -7,6 +7,26 @@ static const int SHAPES[8][2] = {{6, 1}, {6, 2}, {7, 3}, {10, 4}, {12, 6}, {9, 8
 static const double FAM_KAPPA[4] = {10, 0 /* lattice */, 100, 3};
 static double X_[NMAXR * PMAX], Y_[NMAXR * NYMAX];
 
+
+/* ---------------------------------------------------------------- reused outputs
+ * A predictor must give the same result whatever its OUTPUT object held before the call: empty (initMatrix), the result of
+ * an earlier call of the same shape, or a matrix of another shape.  PLSScorePredictor and PLSYPredictorAllLV never read
+ * their outputs before (re)initialising them and are single-threaded, so the comparison with the result obtained with
+ * fresh outputs is bit for bit (NaN == NaN, -0 == +0). */
+static int m_same(const matrix *a, const matrix *b) {
+  if (a->row != b->row || a->col != b->col) return 0;
+  for (size_t i = 0; i < a->row; i++) for (size_t j = 0; j < a->col; j++) { double x = a->data[i][j], y = b->data[i][j]; if (!(x == y || (x != x && y != y))) return 0; }
+  return 1;
+}
+static matrix *m_dup(const matrix *a) { matrix *m; NewMatrix(&m, a->row, a->col); for (size_t i = 0; i < a->row; i++) memcpy(m->data[i], a->data[i], sizeof(double) * a->col); return m; }
+/* an output object that was used before for something of another shape and is full of large values */
+static matrix *m_junk(int r, int c) { matrix *m; NewMatrix(&m, (size_t)r, (size_t)c); for (int i = 0; i < r; i++) for (int j = 0; j < c; j++) m->data[i][j] = 1e3 + 7.0 * i - 3.0 * j + 0.25; return m; }
+static matrix *m_toprows(const matrix *a, int r) { matrix *m; NewMatrix(&m, (size_t)r, a->col); for (int i = 0; i < r; i++) memcpy(m->data[i], a->data[i], sizeof(double) * a->col); return m; }
+static void reuse_verdict(const char *fn, const char *cls, int ok, const char *ctx, const char *what, const matrix *got, const matrix *want, const char *how) {
+  char key[160]; snprintf(key, sizeof key, "reuse|%s|%s", fn, cls);
+  vx_check(ok, key, "%s: %s into an output that %s gives %s %zux%zu differing from the result with fresh outputs (%zux%zu) by %g", ctx, fn, how, what, got->row, got->col, want->row, want->col, ok ? 0.0 : hm_maxdiff(got, want));
+}
+
 static void body(void) {
   int si = vx_choose("shape", vx_thorough() ? 8 : 5);
   int xs = vx_choose("xscaling+1", 7) - 1, ys = vx_choose("yscaling+1", 7) - 1;
@@ -139,6 +159,41 @@ static void body(void) {
   vx_check(dY <= tolc, KEY("predict", "PLSYPredictorAllLV", cls), "column %d of PLSYPredictorAllLV(X) differs from recalculated_y by %g (relative to sum|b q||t|), allowance %g (n=%d p=%d ny=%d nlv=%d xs=%d ys=%d)", dYc, dY, tolc, n, p, ny, nlv, xs, ys);
   margin("predict", dY, tolc);
 
+  /* ---- reused outputs.  Every execution: both routines a second time into the objects the fresh calls above filled
+   * (PLSYPredictorAllLV gets the filled n x nlv score matrix as its optional score output).  Other previous shapes cost up to two
+   * more predictor calls each, so ONE of the six (routine, previous shape) pairs is visited per execution, in rotation over the
+   * sum of the choice indices (consecutive nlv / inputs take consecutive pairs): rows differ = objects filled by a call on the
+   * first n-1 objects; columns differ = filled by a call with nlv-1 (hand-filled where this model cannot produce such a
+   * shape); both differ. */
+  { char ctx[120]; snprintf(ctx, sizeof ctx, "n=%d p=%d ny=%d nlv=%d xs=%d ys=%d", n, p, ny, nlv, xs, ys);
+    int rot = (si + xs + ys + ny + noise + fam + yv + xv + nlv + 2) % 6, ok, oky;
+    matrix *wt = m_dup(ps), *wy = m_dup(yp);
+    PLSScorePredictor(mx, m, (size_t)nlv, ps); ok = m_same(ps, wt);
+    reuse_verdict("PLSScorePredictor", "same-shape", ok, ctx, "scores", ps, wt, "holds an earlier result of the same shape");
+    PLSYPredictorAllLV(mx, m, ps, yp); oky = m_same(yp, wy); ok = m_same(ps, wt);
+    reuse_verdict("PLSYPredictorAllLV", "same-shape", ok && oky, ctx, oky ? "scores" : "predictions", oky ? ps : yp, oky ? wt : wy, "holds an earlier result of the same shape");
+    vx_transition(2);
+    if (rot < 3) {
+      matrix *o;
+      if (rot == 0) { matrix *sub = m_toprows(mx, n - 1); initMatrix(&o); PLSScorePredictor(sub, m, (size_t)nlv, o); DelMatrix(&sub); }
+      else if (nlv > 1) { matrix *sub = m_toprows(mx, n - 1); initMatrix(&o); PLSScorePredictor(rot == 1 ? mx : sub, m, (size_t)(nlv - 1), o); DelMatrix(&sub); }
+      else o = rot == 1 ? m_junk(n, nlv + 1) : m_junk(n + 2, nlv + 3);
+      PLSScorePredictor(mx, m, (size_t)nlv, o); vx_transition(1);
+      reuse_verdict("PLSScorePredictor", rot < 2 ? "one-dim-differs" : "both-dims-differ", m_same(o, wt), ctx, "scores", o, wt,
+                    rot == 0 ? "held the scores of another number of objects" : rot == 1 ? "held the scores of another number of latent variables" : "held the scores of other numbers of objects and latent variables");
+      DelMatrix(&o);
+    } else {
+      matrix *oy, *ot;
+      if (rot == 3) { matrix *sub = m_toprows(mx, n - 1); initMatrix(&oy); initMatrix(&ot); PLSYPredictorAllLV(sub, m, ot, oy); DelMatrix(&sub); }
+      else if (rot == 4) { oy = m_junk(n, ny * A + 1); ot = m_junk(n, A + 1); }
+      else { oy = m_junk(n + 2, ny * A + 3); ot = m_junk(n + 2, A + 3); }
+      PLSYPredictorAllLV(mx, m, ot, oy); vx_transition(1); oky = m_same(oy, wy); ok = m_same(ot, wt);
+      reuse_verdict("PLSYPredictorAllLV", rot < 5 ? "one-dim-differs" : "both-dims-differ", ok && oky, ctx, oky ? "scores" : "predictions", oky ? ot : oy, oky ? wt : wy,
+                    rot == 3 ? "held the result for another number of objects" : rot == 4 ? "held matrices with another number of columns" : "held matrices with other numbers of rows and columns");
+      DelMatrix(&oy); DelMatrix(&ot);
+    }
+    DelMatrix(&wt); DelMatrix(&wy); }
+
   vx_outcome(hm_hash(m->recalculated_y, hm_hash(m->xscores, (uint64_t)(xs + 1) * 7 + (uint64_t)(ys + 1))));
   rm_free(T); rm_free(P); rm_free(W); rm_free(Q); rm_free(E); rm_free(R);
   DelMatrix(&ps); DelMatrix(&yp); DelPLSModel(&m); DelMatrix(&mx); DelMatrix(&my);
@@ -151,7 +206,8 @@ int main(int argc, char **argv) {
               "X variant {offset columns, no offsets, 1e3 offset + x50 column, column sd 4e-3 (fit/apply zero-guard band)}");
   vx_describe("oracle", "cos(t_i,t_j), cos(w_i,w_j), |t_k - E_{k-1} w_k|, |t_k'(E-TP')|, |E-TP'| at nlv=rank, PLSScorePredictor(X)=T, PLSYPredictorAllLV(X)=recalculated_y: "
               "allowance 1e3*eps*(n+p)*kappa(E)/min_k gamma_k (kappa by long-double Jacobi SVD of the documented preprocessing, gamma from a long-double reference PLS path; instances with allowance > 1e-6 pruned); "
-              "recalculated_y[:,ny(a-1)+j] vs long-double back-transform of sum b t q' (16*eps*(a+2)*sum|terms|); recalc_residuals[:,c] = recalculated_y[:,c] - my[:,c mod ny] (4 eps)");
+              "recalculated_y[:,ny(a-1)+j] vs long-double back-transform of sum b t q' (16*eps*(a+2)*sum|terms|); recalc_residuals[:,c] = recalculated_y[:,c] - my[:,c mod ny] (4 eps); "
+              "PLSScorePredictor / PLSYPredictorAllLV (predictions and scores) into reused outputs (same shape, one or both dimensions different) = result with fresh outputs, bit for bit");
   vx_describe("tick", "DVectorMatrixDotProduct wrapped (2 calls per NIPALS iteration + 1 per latent variable), ceiling %ld", vx_tick_ceiling);
   vx_set_shard_depth(3);
   vx_expect_outcomes(1000);
